@@ -137,6 +137,48 @@ def broken_variants(rng, inc_cells):
     return out
 
 
+def repoint_variants(rng, inc_cells, cap_other=4, cap_swap=6):
+    """links re-pointed to dates that DO occur in the triangle (so a membership test instead of the
+    chain test would accept them). Each is (tag, cells):
+      repoint/earlier  every (cell i >= 2 of a row, evaluation date j < i-1 of the SAME row)
+      repoint/other    a cell's prev moved to an evaluation / previous date of ANOTHER row or slice
+                       (up to `cap_other` per cell, only dates < its evaluation date and != its prev)
+      swapprev         two cells of different rows exchange their prev dates (up to `cap_swap`)"""
+    rows = {}
+    for i, c in enumerate(inc_cells):
+        rows.setdefault((c.metadata, c.period), []).append(i)
+    out = []
+
+    def with_prev(i, d):
+        return inc_cells[:i] + [rebuild_inc(inc_cells[i], prev_evaluation_date=d)] + inc_cells[i + 1:]
+
+    for key, idxs in rows.items():
+        evs = [inc_cells[i].evaluation_date for i in idxs]
+        own = set(evs) | {inc_cells[i].prev_evaluation_date for i in idxs}
+        foreign = sorted({d for k2, idx2 in rows.items() if k2 != key for j in idx2
+                          for d in (inc_cells[j].evaluation_date, inc_cells[j].prev_evaluation_date)} - own)
+        for pos, i in enumerate(idxs):
+            c = inc_cells[i]
+            for j in range(pos - 1):                      # j < pos-1: an earlier, non-adjacent date of the row
+                out.append(("repoint/earlier", with_prev(i, evs[j])))
+            cands = [d for d in foreign if d < c.evaluation_date and d != c.prev_evaluation_date]
+            for d in (rng.sample(cands, cap_other) if len(cands) > cap_other else cands):
+                out.append((f"repoint/other/{'first' if pos == 0 else 'later'}", with_prev(i, d)))
+    # swaps across rows
+    n = len(inc_cells)
+    pairs = [(a, b) for a in range(n) for b in range(a + 1, n)
+             if (inc_cells[a].metadata, inc_cells[a].period) != (inc_cells[b].metadata, inc_cells[b].period)
+             and inc_cells[a].prev_evaluation_date != inc_cells[b].prev_evaluation_date
+             and inc_cells[b].prev_evaluation_date < inc_cells[a].evaluation_date
+             and inc_cells[a].prev_evaluation_date < inc_cells[b].evaluation_date]
+    for a, b in (rng.sample(pairs, cap_swap) if len(pairs) > cap_swap else pairs):
+        cells = list(inc_cells)
+        cells[a] = rebuild_inc(inc_cells[a], prev_evaluation_date=inc_cells[b].prev_evaluation_date)
+        cells[b] = rebuild_inc(inc_cells[b], prev_evaluation_date=inc_cells[a].prev_evaluation_date)
+        out.append(("swapprev", cells))
+    return out
+
+
 def field_variants(rng, cells, incremental):
     """rows with inconsistent fields: in a row of >= 2 cells one cell loses a key / gains a key /
     has a key renamed. Each is (tag, cells)."""
@@ -272,7 +314,21 @@ def run_stream(ctx, n_tri):
         variants = broken_variants(rng, list(inc.cells))
         if not ctx.thorough and len(variants) > 8:
             variants = rng.sample(variants, 8)
-        to_model = set(rng.sample(range(len(variants)), min(model_variants, len(variants))))
+        repoints = repoint_variants(rng, list(inc.cells))
+        if not ctx.thorough:
+            # quick: a bounded sample of every class (same-row re-pointing first: it is the subtle one)
+            by_cls = {}
+            for v in repoints:
+                by_cls.setdefault(v[0].split("/")[0] + "/" + (v[0].split("/") + [""])[1], []).append(v)
+            repoints = []
+            for cls, cap in (("repoint/earlier", 4), ("repoint/other", 3), ("swapprev/", 2)):
+                vs = by_cls.get(cls, [])
+                repoints += rng.sample(vs, cap) if len(vs) > cap else vs
+        n_old = len(variants)
+        variants = variants + repoints
+        to_model = set(rng.sample(range(n_old), min(model_variants, n_old)))
+        if repoints:                 # the model must refuse the re-pointed chains too
+            to_model |= set(rng.sample(range(n_old, len(variants)), min(2 if not ctx.thorough else 1, len(repoints))))
         for vi, (tag, vcells) in enumerate(variants):
             st, vt = call(Triangle, vcells)
             if st != "ok":
@@ -410,7 +466,9 @@ if __name__ == "__main__":
              "layout; regular square/triangle, ragged, day-level irregular periods; every field one of int / dyadic "
              "float / int64 array / float64 array; earned_premium present or not, constant or varying; key insertion "
              "order varied) -> to_incremental, to_cumulative, both round trips, identity on the target basis; every "
-             "(quick: up to 8 per triangle) one-link-removed / previous-date-shifted / evaluation-date-shifted variant "
+             "(quick: up to 8 per triangle) one-link-removed / previous-date-shifted / evaluation-date-shifted variant, "
+             "every re-pointing of a link to an earlier non-adjacent evaluation date of the same row (quick: up to 4), "
+             "re-pointings to dates of other rows/slices and prev-date swaps across rows (sampled) "
              "and three inconsistent-field variants per basis must raise TriangleError; plus directly generated complete "
              "incremental triangles. distinct = distinct canonical input dump; non-trivial = some row has >= 2 cells",
         assumptions=["values are exactly representable (ints, dyadic rationals < 2^12 with 3 fractional bits): IEEE "
